@@ -40,6 +40,7 @@ structure Machine (σ : Type) where
   pop : σ → σ
   iter : σ → σ × List Emission
   tick : σ → Int → σ
+  tickIdle : σ → Int → σ
   busy : σ → Bool
   chanEmpty : σ → Bool
   tagAdd : σ → Row → Int → List String
@@ -51,11 +52,11 @@ structure Gap where
   id : Nat
   ts : Option Int
 
-def parseGap (g : String) : Option Gap :=
+def parseGap (unit : Int) (g : String) : Option Gap :=
   match g.splitOn ":" with
   | k :: id :: ts :: _ => do
     let k ← parseNat k; let id ← parseNat id
-    some { k := k, id := id, ts := tsOfTok 1 ts }
+    some { k := k, id := id, ts := tsOfTok unit ts }
   | _ => none
 
 variable {σ : Type}
@@ -123,6 +124,8 @@ def runWith [Inhabited σ] (m : Machine σ) (s0 : σ) (scfg : WinSpec.Cfg) (c : 
   let mut tags : List String := []
   let mut flushed := false
   let mut ptTicks : Nat := 0
+  let mut idleTicked := false
+  let mut idleTicks : Nat := 0
   for (op, implObs) in c.ops do
     match op with
     | "add" :: id :: ts :: _ =>
@@ -145,7 +148,7 @@ def runWith [Inhabited σ] (m : Machine σ) (s0 : σ) (scfg : WinSpec.Cfg) (c : 
         evs := evs ++ [WinSpec.Ev.arr id ts] ++ evsOfObs implObs []
       flushed := false
     | "deliver" :: gs =>
-      let gaps := gs.filterMap parseGap
+      let gaps := gs.filterMap (parseGap (cfgInt c "tsunit" 1))
       match deliver m s gaps now (lemitStarts implObs) with
       | none => obs := obs ++ [[["idle"]]]
       | some (s', es) =>
@@ -161,10 +164,14 @@ def runWith [Inhabited σ] (m : Machine σ) (s0 : σ) (scfg : WinSpec.Cfg) (c : 
       evs := evs ++ evsOfObs implObs []
       flushed := true
     | ["tick"] =>
-      s := m.tick s now
+      -- the wall clock strictly increases from one idle tick to the next (each sends a new value)
+      s := if cfgInt c "idle" 0 > 0 then m.tickIdle s (now + Int.ofNat idleTicks) else m.tick s now
+      if cfgInt c "idle" 0 > 0 then
+        idleTicked := true
+        idleTicks := idleTicks + 1
       obs := obs ++ [[]]
     | "pttick" :: gs =>
-      let gaps := gs.filterMap parseGap
+      let gaps := gs.filterMap (parseGap 1)
       let (s', es) := m.ptTick s
       s := s'
       -- Adds issued during the hand-off of the fired window (inside the callback)
@@ -181,10 +188,13 @@ def runWith [Inhabited σ] (m : Machine σ) (s0 : σ) (scfg : WinSpec.Cfg) (c : 
   let spec := if mode == "pt" then
       (match WinSpec.holdsPT scfg evs ptTicks with | none => "ok" | some e => "fail:" ++ e)
     else
+    -- after an idle-timeout tick the watermark comes from the wall clock: the history-based oracle
+    -- (watermark = largest timestamp − tolerance) does not apply; such cases are tied by correspondence only
+    if idleTicked then "ok" else
     match WinSpec.holds scfg evs flushed with
     | none => "ok"
     | some e => "fail:" ++ e
-  return { obs := obs, spec := spec, tags := tags }
+  return { obs := obs, spec := spec, tags := if idleTicked then "idle-tick-advances-watermark" :: tags else tags }
 
 instance : Inhabited Tumbling.TW := ⟨Tumbling.init 1 0 0⟩
 instance : Inhabited SlidingLate.SWL := ⟨SlidingLate.init 1 1 0 0⟩
@@ -194,6 +204,7 @@ def tumblingMachine : Machine Tumbling.TW where
   pop := Tumbling.stepPop
   iter := Tumbling.stepIter
   tick := fun s now => { s with wm := Wm.tick s.wm false now }
+  tickIdle := fun s now => { s with wm := Wm.tick s.wm true now }
   busy := fun s => s.trigW.isSome
   chanEmpty := fun s => s.wm.chan.isEmpty
   ptAdd := Tumbling.ptAdd
@@ -212,6 +223,7 @@ def slidingMachine : Machine SlidingLate.SWL where
   pop := SlidingLate.stepPop
   iter := SlidingLate.stepIter
   tick := fun s now => SlidingLate.tick s false now
+  tickIdle := fun s now => SlidingLate.tick s true now
   busy := fun s => s.base.trigW.isSome
   chanEmpty := fun s => s.base.wm.chan.isEmpty
   ptAdd := fun s _ => s
